@@ -10,6 +10,8 @@ import (
 	"io"
 	"io/fs"
 	"os"
+	"strings"
+	"sync"
 	"time"
 
 	"verif/sched"
@@ -26,10 +28,12 @@ const (
 	CrashBefore               // halt the activity before the operation
 	CrashAfter                // perform the operation, then halt
 	CrashAfterShortWrite      // write Cut bytes, then halt
+	ShortRead                 // (read operations) hand over at most max(1, Cut) bytes, no error: a legal short read
+	FailOpensFrom             // from operation K on, every operation that needs a new descriptor fails (descriptor exhaustion); the others proceed
 )
 
 func (k Kind) String() string {
-	return [...]string{"none", "fail-before", "short-write-then-fail", "crash-before", "crash-after", "crash-after-short-write"}[k]
+	return [...]string{"none", "fail-before", "short-write-then-fail", "crash-before", "crash-after", "crash-after-short-write", "short-read", "fail-opens-from"}[k]
 }
 
 type Plan struct {
@@ -69,10 +73,16 @@ var st = state{plan: Plan{K: -1}}
 func Reset() { st = state{plan: Plan{K: -1}} }
 
 // Begin starts numbering operations from 0 with the given plan (K=-1: count only).
-func Begin(p Plan) { st = state{plan: p, counting: true} }
+func Begin(p Plan) {
+	mu.Lock()
+	defer mu.Unlock()
+	st = state{plan: p, counting: true}
+}
 
 // End stops fault injection and returns the operations seen since Begin.
 func End() (ops []Op, struck bool, crashed bool) {
+	mu.Lock()
+	defer mu.Unlock()
 	ops, struck, crashed = st.trace, st.struck, st.crashed
 	st = state{plan: Plan{K: -1}}
 	return
@@ -89,14 +99,25 @@ const (
 	shortThenFail
 	shortThenCrash
 	noop // the activity has crashed: do nothing
+	shortRead
 )
 
 // enter is called at the start of every intercepted operation.
+// mu guards st against the goroutines of a server under test (an HTTP server handles every request in its own
+// goroutine, even when the requests come one after the other). Scheduling points lie outside it.
+var mu sync.Mutex
+
 func enter(desc string, write bool, n int) (act action, cut int, after func()) {
-	after = func() {}
 	if st.scheduled {
 		sched.YieldWhy("os." + desc)
 	}
+	mu.Lock()
+	defer mu.Unlock()
+	return enterLocked(desc, write, n)
+}
+
+func enterLocked(desc string, write bool, n int) (act action, cut int, after func()) {
+	after = func() {}
 	if st.crashed {
 		return noop, 0, after
 	}
@@ -106,6 +127,13 @@ func enter(desc string, write bool, n int) (act action, cut int, after func()) {
 	idx := st.n
 	st.n++
 	st.trace = append(st.trace, Op{Index: idx, Desc: desc, Write: write, N: n})
+	if st.plan.Kind == FailOpensFrom {
+		if st.plan.K >= 0 && idx >= st.plan.K && (strings.HasPrefix(desc, "OpenFile(") || strings.HasPrefix(desc, "ReadFile(")) {
+			st.struck = true
+			return failNow, 0, after
+		}
+		return proceed, 0, after
+	}
 	if idx != st.plan.K {
 		return proceed, 0, after
 	}
@@ -118,6 +146,15 @@ func enter(desc string, write bool, n int) (act action, cut int, after func()) {
 		cut = 0
 	}
 	switch st.plan.Kind {
+	case ShortRead:
+		if strings.HasPrefix(desc, "Read(") {
+			c := st.plan.Cut
+			if c < 1 {
+				c = 1
+			}
+			return shortRead, c, after
+		}
+		return proceed, 0, after
 	case FailBefore:
 		return failNow, 0, after
 	case ShortWriteThenFail:
@@ -181,9 +218,12 @@ func Create(name string) (*File, error) {
 }
 
 func (f *File) Read(b []byte) (int, error) {
-	act, _, after := enter("Read("+base(f.Name())+")", false, 0)
+	act, cut, after := enter("Read("+base(f.Name())+")", false, 0)
 	if act == failNow || act == noop {
 		return 0, perr("read", f.Name())
+	}
+	if act == shortRead && len(b) > cut {
+		b = b[:cut]
 	}
 	n, err := f.File.Read(b)
 	after()
